@@ -458,7 +458,11 @@ def e2e_engine(prop):
         return sorted(set(ks))
 
     return {"name": "e2e", "gen": gen, "corpus": lambda: list(CORPUS[prop]), "nontrivial": nontrivial, "classify": classify,
-            "shards": 4, "timeout": 1500, "shrink": True}
+            "shards": 4, "timeout": 1500, "shrink": True,
+            # a live pipeline: a difference may be a race in rotonda that shows in a few runs of a hundred (the unsubscribe-first
+            # defect of a removed ingress unit showed in 2-6 % of the runs) - so a failing case is repeated 60 times before it is
+            # put down to load, and each candidate of the minimiser gets 8 more tries
+            "repeat": 60, "repeat_min": 8}
 
 
 # default profile: routers return, metrics are read
